@@ -4,6 +4,7 @@ package hx
 
 import (
 	"encoding/json"
+	"flag"
 	"fmt"
 	"hash/fnv"
 	"math/rand"
@@ -224,4 +225,48 @@ func (c *Ctx) Finish() error {
 		return err
 	}
 	return os.WriteFile(filepath.Join(c.Out, "stats.json"), js, 0o644)
+}
+
+// Main is the entry point shared by every harness binary:
+//
+//	h_xxx -out DIR [-seed N] [-tier quick|thorough] [-repo /repo] <driver>
+func Main(drivers map[string]func(*Ctx) error) {
+	var c Ctx
+	flag.Int64Var(&c.Seed, "seed", 1, "PRNG seed")
+	flag.StringVar(&c.Tier, "tier", "quick", "quick|thorough")
+	flag.StringVar(&c.Out, "out", "", "output directory")
+	flag.StringVar(&c.Repo, "repo", "/repo", "repository root")
+	flag.StringVar(&c.Replay, "replay", "", "replay file")
+	flag.Parse()
+	if flag.NArg() != 1 || c.Out == "" {
+		var names []string
+		for n := range drivers {
+			names = append(names, n)
+		}
+		sort.Strings(names)
+		fmt.Fprintf(os.Stderr, "usage: %s -out DIR [-seed N] [-tier T] <driver>\ndrivers: %v\n", os.Args[0], names)
+		os.Exit(2)
+	}
+	d, ok := drivers[flag.Arg(0)]
+	if !ok {
+		fmt.Fprintf(os.Stderr, "unknown driver %q\n", flag.Arg(0))
+		os.Exit(2)
+	}
+	if err := os.MkdirAll(c.Out, 0o755); err != nil {
+		fmt.Fprintln(os.Stderr, err)
+		os.Exit(2)
+	}
+	if err := d(&c); err != nil {
+		c.HarnessError("driver %s: %v", flag.Arg(0), err)
+	}
+	if err := c.Finish(); err != nil {
+		fmt.Fprintln(os.Stderr, err)
+		os.Exit(2)
+	}
+	if len(c.Stats.HarnessErrors) > 0 {
+		for _, e := range c.Stats.HarnessErrors {
+			fmt.Fprintln(os.Stderr, "HARNESS-ERROR:", e)
+		}
+		os.Exit(3)
+	}
 }
